@@ -189,9 +189,21 @@ def dqStep (joiner : Str) (fields : List Field) (e : Expansion) : List Field :=
     else e.fields
   glue fields (toAppend.map fun f => f.map Piece.mkUnsplit)
 
+/-- some `"$@"`-like piece (non-concatenating) of the quoted text produced no field at all -/
+def sawEmptyList (es : List Expansion) : Bool := es.any fun e => !e.concatenate && e.fields.isEmpty
+
+/-- at most one field, and its text is empty -/
+def nullOnly (fields : List Field) : Bool :=
+  decide (fields.length ≤ 1) && fields.all fun f => f.all fun p => p.str.isEmpty
+
+/-- the end of `process_double_quoted_pieces`: a `"$@"` / `"${a[@]}"` without elements yields no field at all,
+also when the rest of the quoted text expands to nothing (`"$@$empty"` is removed like `"$@"`) -/
+def dropNullAt (es : List Expansion) (fields : List Field) : List Field :=
+  if sawEmptyList es && nullOnly fields then [] else fields
+
 /-- the `DoubleQuotedSequence` arm of `expand_word_piece`, given the expansions of its pieces -/
 def expandDQ (joiner : Str) (es : List Expansion) : Expansion :=
-  let fields := es.foldl (dqStep joiner) []
+  let fields := dropNullAt es (es.foldl (dqStep joiner) [])
   { fields := if es.isEmpty then fields ++ [[.unsplit []]] else fields, concatenate := false }
 
 /-! ## `expand_word_piece` -/
